@@ -62,6 +62,9 @@ CHECKS['C07'] = ('property-based testing with a differential numeric oracle: flo
 CHECKS['C13'] = ('exhaustive enumeration of the finite (selector x config x algorithm) lattice + generated single-op models per accepted pair run through the pipeline and the interpreter with the C06/C07 numeric oracles',
   'The whole lattice (25 selectors x 500 configs x 2 algorithms = 24 000 combinations) is enumerated: construction failures and refused specific-op updates must be ValueError and leave the recipe unchanged, the same pairs must resolve to no_quantize under "*" and accepted ones to the rule, accepted configs must have an execution mode; then for EVERY accepted pair k generated single-op models (k=3 quick, 24 thorough) are quantized with the pair as a specific-op rule or under "*", must quantize, prepare and invoke in the interpreter, and must satisfy exactly the C06 (float-compute) or C07 (static) numeric bound. Exhaustive over the lattice; sampled over models. Four open findings are matched structurally.',
   'Default policy only; skip_checks excluded; numeric soundness is held to the C06/C07 bounds, never stricter.', 'DESIGN.md 4 C13')
+CHECKS['C04'] = ('property-based testing: independent re-derivation of every quantization parameter (reference formulas + effective-statistics propagation) compared per operand',
+  'Generated models x static and weight-quantizing recipes x statistics that are check-constructed for every runtime tensor (incl. degenerate, tiny and huge ranges) or come from calibrate(): for every quantized operand of every original operator (matched through the skeleton), and for graph inputs/outputs under INPUT/OUTPUT rules, the stored (scale, zero point, quantized dimension, bit width) must equal a float64 re-derivation: min/max formulas with zero inclusion and minimum range, true per-tensor/per-channel min/max for constants along the kernel axis, bias = input scale x weight scale with zero point 0, same-scale ops handing on their input\'s parameters and statistics, concatenation imposing its output\'s, fixed kernel ranges for softmax/logistic/tanh; every quantized tensor must have finite positive scales, in-range zero points of equal length, per-channel only on weights/biases.',
+  'Tolerances: scale rtol 3e-6 (float32 storage), zero point +-1 only within 2e-3 of a rounding tie; calibrate() output taken as given (C09); shared constants with several consumers are not judged (C15).', 'DESIGN.md 4 C04')
 NOT_APPLICABLE = {}
 
 def main():
